@@ -371,6 +371,36 @@ def build(run):
         return proved("exec", vcs=n, sample=f"{n} calls on forms without arguments: a result or a refusal, no internal error")
     run.add("forms-without-arguments/result-or-refusal", no_arguments, kind="values")
 
+    # ---- a general EXPRESSION in the place of the coefficient (Form.__mul__ forwards any expression to action): action(a, e) is a(., e), i.e. what replacing a
+    # stand-in coefficient c of action(a, c) by e gives; energy_norm(a, e) = a(e, e)
+    def expression_in_place_of_coefficient():
+        a_ = (u * v + inner(grad(u), grad(v)) * f) * dx + u * v * ufl.ds
+        n = 0
+        for nm_, e_ in (("2*f", 2 * f), ("f + g", f + g), ("f*g + 3", f * g + 3), ("f", f)):
+            c_ = ufl.Coefficient(S)
+            for fname_, got_fn, want_fn in (("action(a, e)", lambda: action(a_, e_), lambda: ufl.replace(action(a_, c_), {c_: e_})), ("a * e", lambda: a_ * e_, lambda: ufl.replace(action(a_, c_), {c_: e_})),
+                                            ("energy_norm(a, e)", lambda: energy_norm(a_, e_), lambda: ufl.replace(energy_norm(a_, c_), {c_: e_}))):
+                n += 1
+                try:
+                    got = got_fn()
+                except (ValueError, RuntimeError) as ex:
+                    if not deliberate(ex):
+                        return violated(f"{fname_} with e = {nm_}: {crash_text(ex)}", replay={"call": fname_, "expression": nm_}, reproduced=True, backend="exec")
+                    continue
+                except (AttributeError, TypeError, IndexError, KeyError) as ex:
+                    return violated(f"{fname_} with e = {nm_} (an expression in the trial space) fails with an internal error: {crash_text(ex)}", replay={"call": fname_, "expression": nm_},
+                                    reproduced=True, backend="exec")
+                want = want_fn()
+                if not (got.equals(want) or got.signature() == want.signature()):      # (up to the numbers of bound indices created on the way)
+                    # not the same tree (derivatives of the expression may have been expanded on one route only): compare the values
+                    from ufl.algorithms import expand_derivatives
+                    we = expand_derivatives(want)
+                    res = check_form(world(complex_mode=True), expand_derivatives(got), lambda w, key, we=we: part_sum(w, form_parts(we).get(key, [])), [we], f"{fname_} with e = {nm_}", tmo)
+                    if res.status != "proved":
+                        return res
+        return proved("exec(relative to a stand-in coefficient)", vcs=n, sample=f"{n} calls with a general expression in place of the coefficient")
+    run.add("action-and-energy_norm/expression-in-place-of-the-coefficient", expression_in_place_of_coefficient, kind="values")
+
     def canary():
         F = u * v * dx - f * v * dx
         return check_form(world(), lhs(F), lambda w, key: N.neg(part_sum(derive_world(w, scale={0: 1, 1: 0}), form_parts(F).get(key, []))), [F], "canary lhs is not rhs")
